@@ -14,4 +14,4 @@ ASSUMPTIONS = ["<= 10 initial nodes, <= 6 frames, <= 50 steps per walk"]
 REQUIRED_CLASSES = {t: ["construct:bare", "construct:ids", "lineage:relabel:add_edge",
                         "lineage:relabel:delete_edge", "lineage:relabel:delete_node"]
                     for t in ("quick", "thorough")}
-run_shard, replay, minimise = make(C05Oracle, quick=(480, 30), thorough=(6400, 50), profile="structure")
+run_shard, replay, minimise = make(C05Oracle, quick=(3200, 30), thorough=(6400, 50), profile="structure")
